@@ -501,6 +501,23 @@ def run_case(case, ctx):
         run = do_ser(R, prog["ops"], m2, types, pretype, dv, False, explicit, build_types)
         expect_error(run, E.UnusedTargetError, "extra-key-with-default", where_of(fr.path))
 
+    # I: a value that does not fit its fixed-width field (2**n or more in an n-bit field, a 2 in a bool ...): the
+    # serialiser must refuse it (OutOfRangeError), not write other bits
+    cands = [(f, p) for f in frames for p in f.prims if p[1] in ("nbits", "uint_lit") and not p[4]]
+    if cands and vr.random() < 0.3:
+        fr, p = vr.choice(cands)
+        target, kind, arg, idx, in_block, tname = p
+        width = arg if kind == "nbits" else 8 * arg
+        m2 = SP.clone(model)
+        node = SP.node_at(m2, fr.path)
+        big = (1 << width) + vr.choice([0, 0, 1, (1 << width) - 1, vr.randrange(1 << (width + 3))])
+        if idx is None:
+            node[target] = big
+        else:
+            node[target][idx] = big
+        run = do_ser(R, prog["ops"], m2, types, pretype, None, False, explicit, build_types)
+        expect_error(run, (E.OutOfRangeError,), "value-too-wide-" + kind, where_of(fr.path))
+
     # D: missing last list element
     cands = []
     for f in frames:
@@ -593,7 +610,7 @@ def run_case(case, ctx):
 
 # ------------------------------------------------------------- floor / evidence
 NEG_VARIANTS = [
-    "extra-key", "extra-key-with-default",
+    "extra-key", "extra-key-with-default", "value-too-wide-nbits", "value-too-wide-uint_lit",
     "extra-list-element",
     "missing-key",
     "missing-key-default-for-other-type",
